@@ -64,6 +64,7 @@ Definition aop_is_read (a : aop) : bool :=
 Definition op_is_passive (o : op) : bool :=
   match o with
   | Feed _ | Turn | Construct => true
+  | PeerFin | PeerDrop => true        (* the peer half-closing or resetting is no reason to announce the end of the body *)
   | App a => aop_is_read a
   | _ => false
   end.
